@@ -23,6 +23,8 @@ type C02Case struct {
 	Part   string        `json:"part"`
 	Format string        `json:"format"`
 	Cfg    model.MetaCfg `json:"cfg"`
+	// Spell: the YAML spelling the document is written in (see respellText; "" = as rendered)
+	Spell string `json:"spelling,omitempty"`
 }
 
 func baseMeta() model.MetaCfg {
@@ -326,10 +328,28 @@ var c02Scalars = []scalarField{
 }
 
 func enumC02(env *engine.Env, yield func(any) bool) {
+	// parts whose documents are also written in other YAML spellings (flow style with quoted strings and escapes,
+	// CRLF line ends, byte order mark and document markers, comments)
+	spelt := map[string]bool{"description": true, "description-rel8": true, "description-scalar": true, "rel8": true, "extra": true, "extras-all": true, "rel8-override": true, "version": true}
 	emit := func(part string, c model.MetaCfg) bool {
 		for _, f := range Formats {
 			if !yield(C02Case{Part: part, Format: f, Cfg: c}) {
 				return false
+			}
+		}
+		if spelt[part] || strings.HasPrefix(part, "scalar:") {
+			if len(c.Description) > 60000 {
+				return true
+			}
+			for _, sp := range []string{"json", "crlf", "bom", "comments"} {
+				if part == "version" && sp != "json" {
+					continue
+				}
+				for _, f := range Formats {
+					if !yield(C02Case{Part: part, Format: f, Cfg: c, Spell: sp}) {
+						return false
+					}
+				}
 			}
 		}
 		return true
@@ -635,6 +655,14 @@ func checkC02(env *engine.Env, ci any) engine.Outcome {
 	var out engine.Outcome
 	f := c.Format
 	text := metaDoc(c.Cfg, f, t).YAML()
+	if c.Spell != "" {
+		respelt, rerr := respellText(text, c.Spell)
+		if rerr != nil || respelt == text {
+			out.HarnessError = fmt.Sprintf("spelling %s: %v / nothing to respell in:\n%s", c.Spell, rerr, text)
+			return out
+		}
+		text = respelt
+	}
 	platformOK := c.Cfg.Platform == "" || c.Cfg.Platform == "linux" || f == "deb" || f == "rpm" || f == "ipk"
 	var keys []string
 	judge := func(stage string, data []byte, err error) {
